@@ -10,6 +10,7 @@ Line protocol on stdin/stdout (one JSON document per line):
 
 A *time spec* is null (None) or {"i": <instant, µs since the epoch>, "rep": [...]}, rep being
   ["nl"]            naive local, as a file store reports it: datetime.fromtimestamp
+  ["mts", rep] / ["lits", rep]   the datetime `rep` as ModifiedTimeSource / LiteralSource report it from get_modified_time
   ["file"]          what a REAL bundled file store's get_modified_time returns for a file whose mtime is that instant
   ["nlflip"]        the same with the fold bit flipped (the parent only asks for it where the wall reading is unambiguous)
   ["au"]            aware, UTC
@@ -69,6 +70,12 @@ def build(spec):
         wall, fold = spec["raw"]
         return (EPOCH_N + wall * US).replace(fold=fold)
     i, rep = spec["i"], spec["rep"]
+    if rep[0] in ("mts", "lits"):
+        # the datetime as a bundled SOURCE store hands it on (it must be handed on unchanged, aware or naive)
+        from uberjob.stores import LiteralSource, ModifiedTimeSource
+        inner = build({"i": i, "rep": rep[1]})
+        st = ModifiedTimeSource(inner) if rep[0] == "mts" else LiteralSource("value", inner)
+        return st.get_modified_time()
     if rep[0] == "file":
         # what a BUNDLED file store reports for a file last modified at that instant (a whole number of seconds)
         import tempfile
